@@ -12,6 +12,8 @@ mod common;
 mod strings;
 mod suite_cmp;
 mod suite_axes;
+mod arena_obs;
+mod suite_arena;
 mod suite_build;
 mod suite_entity;
 mod suite_ffixed;
@@ -76,6 +78,7 @@ fn main() {
         "idmap" => suite_idmap::run(seed, count, tier, &mut sink),
         "axes" => suite_axes::run(seed, count, tier, &mut sink),
         "validdoc" => suite_validdoc::run(seed, count, tier, &mut sink),
+        "arena" => suite_arena::run(seed, count, tier, &mut sink),
         "ser" => suite_ser::run(seed, count, tier, &mut sink),
         "fws" => suite_fws::run(seed, count, tier, &mut sink),
         "scope" => suite_scope::run(seed, count, tier, &mut sink),
